@@ -169,11 +169,16 @@ def parse_css_declarations(
     https://www.w3.org/TR/2013/REC-css-style-attr-20131107/#syntax
     """
     unparsed = []
+    # comments may stand wherever whitespace may
+    style = re.sub(r"/\*.*?\*/", " ", style, flags=re.DOTALL)
     for declaration in style.split(";"):
         declaration = declaration.strip()
         if declaration.count(":") == 1:
             property_name, value = declaration.split(":")
             property_name, value = property_name.strip(), value.strip()
+            # the priority is not part of the value (and changes nothing in a
+            # style attribute, which already wins over presentation attributes)
+            value = re.sub(r"\s*!\s*important$", "", value, flags=re.IGNORECASE)
             if property_names is None or property_name in property_names:
                 try:
                     output[property_name] = value
